@@ -498,4 +498,6 @@ PROPS["C16"]["level_text"] += " Data queries can be delivered upper-cased the fi
 PROPS["C06"]["level_text"] += " The menu includes names that expand beyond any name buffer (1-3 labels of 1/32/63 bytes followed by a compression pointer to themselves or to the question) in the question, the owner name and the record target."
 PROPS["C04"]["level_text"] += " A fifth start state has a lazy-mode session with a ping held by the server (so that a slot can change hands while the server still remembers a query of the previous owner)."
 PROPS["C03"]["level_text"] += " A fifth start state has a logged-in lazy-mode session with a ping held by the server."
+for _p in ("C10", "C14", "C15"):
+    PROPS[_p]["tiers"]["thorough"]["budget_s"] = 3600
 
